@@ -49,11 +49,12 @@ ASSUMPTIONS = [
 ]
 ASAN_MODULES = ["cherab.core.math.mappers", "cherab.core.math.clamp", "cherab.core.math.slice", "cherab.core.math.mask", "cherab.core.math.transform.periodic", "cherab.core.math.transform.cylindrical", "cherab.core.math.samplers"]
 ASAN = dict(cases=4000, workers=8, timecap=240)
-QUICK = dict(cases=4000, workers=2, timecap=45)
+QUICK = dict(cases=3400, workers=2, timecap=45)
 THOROUGH = dict(cases=150000, workers=16, timecap=600)
 REQUIRED = {"received_exact": 5000, "received_computed": 1000, "value_exact": 5000, "vector_rotation": 500,
             "periodic_membership": 2000, "periodic_congruence": 2000, "mask_points": 1000,
-            "sampler_entries": 5000, "sampler_grid": 1000, "sampler_alias": 5000}
+            "sampler_entries": 5000, "sampler_grid": 1000, "sampler_alias": 5000,
+            "nested_leaf_args": 5000, "nested_value": 5000}
 
 ULPS = 16.0
 TINY = 1e-300
@@ -75,7 +76,8 @@ SAMPLER_ND = {"sample1d": 1, "sample2d": 2, "sample3d": 3, "samplevector2d": 2, 
 FAMILIES = ([("IsoMapper2D", 2), ("IsoMapper3D", 2), ("Swizzle2D", 2), ("Swizzle3D", 4), ("Slice2D", 3), ("Slice3D", 4)]
             + [(n, 4) for n in CYL] + [(n, 2) for n in CLAMP_IN] + [(n, 2) for n in CLAMP_OUT]
             + [(n, 5) for n in SCALAR_PERIODIC] + [(n, 4) for n in VECTOR_PERIODIC] + [("PolygonMask2D", 8)]
-            + [(n, 2) for n in RANGE_SAMPLERS] + [(n, 1.5) for n in POINT_SAMPLERS] + [(n, 1.5) for n in GRID_SAMPLERS])
+            + [(n, 2) for n in RANGE_SAMPLERS] + [(n, 1.5) for n in POINT_SAMPLERS] + [(n, 1.5) for n in GRID_SAMPLERS]
+            + [("nested", 14), ("nested_vector", 4)])
 
 _NDIM = {"IsoMapper2D": 2, "IsoMapper3D": 3, "Swizzle2D": 2, "Swizzle3D": 3, "Slice2D": 1, "Slice3D": 2,
          "AxisymmetricMapper": 3, "VectorAxisymmetricMapper": 3, "CylindricalTransform": 3,
@@ -568,6 +570,8 @@ def gen_case(rng, tier):
 
 
 def _gen_named(rng, name):
+    if name in ("nested", "nested_vector"):
+        return _gen_nested(rng, name == "nested_vector")
     case = {"w": name}
     npt = int(rng.integers(6, 41))
     if name in ("IsoMapper2D", "IsoMapper3D"):
@@ -842,6 +846,7 @@ def fixed_cases(tier):
         out.append({"w": "sample3d_grid", "f": f3, "axes": ax, "container": cont})
         out.append({"w": "samplevector2d_grid", "f": v2, "axes": ax[:2], "container": cont})
         out.append({"w": "samplevector3d_grid", "f": v3, "axes": ax, "container": cont})
+    out += _nested_fixed()
     return out
 
 
@@ -898,6 +903,8 @@ def run_case(case, ctx):
         return _run_mask(case, ctx)
     if name in SAMPLER_ND:
         return _run_sampler(case, ctx)
+    if name in ("nested", "nested_vector"):
+        return _run_nested(case, ctx)
     return _run_wrapper(case, ctx)
 
 
@@ -1531,3 +1538,538 @@ def _received_cover(ctx, name, f, pts, tag=""):
     if missing:
         ctx.viol("%s:point-never-evaluated%s" % (name, tag), "the function was never called at a sample point",
                  missing=[list(m) for m in missing[:3]], n_missing=len(missing), n_calls=len(f.calls))
+
+
+# ==============================================================================================
+# NESTED COMPOSITIONS: wrappers wrapping wrappers (depth 2-3) around one recording leaf
+# ==============================================================================================
+# A chain is {"layers": [outermost, ..., innermost], "f": leaf coefficients}.  Every layer is split by the reference into
+#   * an argument map (going inwards): clamp-input, swizzle, slice, periodic reduction, (r, phi, z) / (r, z); identity for
+#     clamp-output and iso-mappers;
+#   * a value map (going outwards): clamp-output, g(.) of an iso-mapper (g = recording leaf or a 1-D chain of its own),
+#     rotation about z for the vector geometric mappers; identity otherwise.
+# Arguments are propagated as (value, tolerance, modulus): exact maps keep tolerance 0, periodic reduction / hypot / atan2
+# add their rounding allowance, a modulus marks "defined modulo the period" (compared circularly, membership exact).
+# The recording leaf checks what reaches the innermost function; the returned value must equal the value maps applied to
+# the leaf's recorded return value (bit-equal for scalars).
+
+N_EXPOSE = {   # exposed dimension -> [(class, wrapped dimension)]
+    1: [("ClampOutput1D", 1), ("ClampInput1D", 1), ("PeriodicTransform1D", 1), ("Slice2D", 2)],
+    2: [("ClampOutput2D", 2), ("ClampInput2D", 2), ("PeriodicTransform2D", 2), ("Swizzle2D", 2), ("IsoMapper2D", 2), ("Slice3D", 3)],
+    3: [("ClampOutput3D", 3), ("ClampInput3D", 3), ("PeriodicTransform3D", 3), ("Swizzle3D", 3), ("IsoMapper3D", 3),
+        ("CylindricalTransform", 3), ("AxisymmetricMapper", 2)],
+}
+N_EXPOSE_VEC = {
+    1: [("VectorPeriodicTransform1D", 1)],
+    2: [("VectorPeriodicTransform2D", 2)],
+    3: [("VectorPeriodicTransform3D", 3), ("VectorCylindricalTransform", 3), ("VectorAxisymmetricMapper", 2)],
+}
+_GEOM = ("CylindricalTransform", "AxisymmetricMapper", "VectorCylindricalTransform", "VectorAxisymmetricMapper")
+_NPERIODS = [1.0, 0.3, 2 * math.pi, 360.0, 2.0, 0.125, 7.5]
+
+
+def _n_layer(rng, cname, interesting):
+    """random parameters of one layer; 'interesting' collects scalars around which points are generated"""
+    L = {"c": cname}
+    if cname.startswith("ClampOutput"):
+        L["bounds"] = [None, None]           # filled by _n_clamp_ranges (needs the whole chain)
+    elif cname.startswith("ClampInput"):
+        nd = int(cname[-2])
+        b = []
+        for _ in range(nd):
+            lo = float(rng.uniform(-3, 2))
+            hi = lo + float(rng.uniform(0.1, 3))
+            if rng.random() < 0.2:
+                lo, hi = float(int(lo)), float(int(lo) + int(rng.integers(1, 3)))
+            b.append([_opt_bound(rng, lo, "-inf"), _opt_bound(rng, hi, "inf")])
+            interesting += [lo, hi]
+        L["bounds"] = b
+    elif cname == "Swizzle3D":
+        L["shape"] = [int(i) for i in rng.integers(3, size=3)]
+    elif cname.startswith("Slice"):
+        nd = 2 if cname == "Slice2D" else 3
+        L["axis"] = _axis_sel(rng, nd)
+        L["value"] = float(rng.uniform(-3, 3)) if rng.random() < 0.7 else _hostile(rng)[0]
+        interesting.append(L["value"])
+    elif "PeriodicTransform" in cname:
+        nd = int(cname[-2])
+        L["periods"] = [0.0 if (nd > 1 and rng.random() < 0.3) else
+                        (_NPERIODS[int(rng.integers(len(_NPERIODS)))] if rng.random() < 0.7 else float(10 ** rng.uniform(-1, 1)))
+                        for _ in range(nd)]
+        for p in L["periods"]:
+            if p > 0:
+                interesting += [p * int(rng.integers(-3, 4)), p * 0.5, -p]
+    elif cname.startswith("IsoMapper"):
+        if rng.random() < 0.4:
+            L["g"] = _n_chain(rng, 1, False, int(rng.integers(1, 3)), allow_geom=False, allow_iso=False)
+        else:
+            L["g"] = _coefs(rng, 1)
+    return L
+
+
+def _n_chain(rng, d0, vector, depth, allow_geom=True, allow_iso=True):
+    table = N_EXPOSE_VEC if vector else N_EXPOSE
+    layers, d, prev, geom = [], d0, None, not allow_geom
+    interesting = []
+    for _ in range(depth):
+        cand = [(c, w) for c, w in table[d] if not (geom and c in _GEOM) and (allow_iso or not c.startswith("IsoMapper"))]
+        same = [(c, w) for c, w in cand if prev is not None and c[:-2] == prev[:-2] and w == d]
+        if same and rng.random() < 0.45:
+            c, w = same[0]                           # a wrapper wrapping an instance of its own class
+        else:
+            c, w = cand[int(rng.integers(len(cand)))]
+        geom = geom or c in _GEOM
+        layers.append(_n_layer(rng, c, interesting))
+        prev, d = c, w
+    chain = {"layers": layers, "f": _coefs(rng, d, vector), "leaf_dim": d, "dim": d0}
+    _n_clamp_ranges(rng, chain)
+    chain["interesting"] = [float(t) for t in interesting][:24]
+    return chain
+
+
+def _n_clamp_ranges(rng, chain):
+    """bounds of the ClampOutput layers: relative to the leaf's value range, consecutive ones in a drawn relation
+    (overlapping / touching / contained / disjoint, either order)"""
+    outs = [L for L in chain["layers"] if L["c"].startswith("ClampOutput")]
+    if not outs:
+        return
+    c = chain["f"]
+    c0 = c[0]
+    S = sum(abs(t) for t in c[1:]) or 1.0
+    prev = None
+    for L in outs[::-1]:                              # innermost first
+        if prev is None:
+            lo = c0 + float(rng.uniform(-0.8, 0.2)) * S
+            hi = lo + float(rng.uniform(0.1, 0.8)) * S
+        else:
+            plo, phi_ = prev
+            w = phi_ - plo
+            rel = int(rng.integers(6))
+            if rel == 0:                              # disjoint above
+                lo = phi_ + float(rng.uniform(0.05, 0.5)) * w
+                hi = lo + float(rng.uniform(0.1, 1)) * w
+            elif rel == 1:                            # disjoint below
+                hi = plo - float(rng.uniform(0.05, 0.5)) * w
+                lo = hi - float(rng.uniform(0.1, 1)) * w
+            elif rel == 2:                            # touching
+                if rng.random() < 0.5:
+                    lo, hi = phi_, phi_ + float(rng.uniform(0.1, 1)) * w
+                else:
+                    lo, hi = plo - float(rng.uniform(0.1, 1)) * w, plo
+            elif rel == 3:                            # contained in the inner range
+                lo = plo + float(rng.uniform(0.1, 0.4)) * w
+                hi = phi_ - float(rng.uniform(0.1, 0.4)) * w
+            elif rel == 4:                            # containing the inner range
+                lo, hi = plo - float(rng.uniform(0.1, 1)) * w, phi_ + float(rng.uniform(0.1, 1)) * w
+            else:                                     # overlapping
+                lo = plo + float(rng.uniform(0.2, 0.8)) * w
+                hi = phi_ + float(rng.uniform(0.1, 1)) * w
+            if not lo < hi:
+                hi = lo + abs(lo) * 0.5 + 1.0
+        prev = (lo, hi)
+        L["bounds"] = [_opt_bound(rng, lo, "-inf") if rng.random() < 0.3 else lo, _opt_bound(rng, hi, "inf") if rng.random() < 0.3 else hi]
+
+
+def _n_points(rng, chain, n):
+    d = chain["dim"]
+    inter = list(chain.get("interesting", []))
+    for L in chain["layers"]:
+        if isinstance(L.get("g"), dict):
+            inter += L["g"].get("interesting", [])
+    pts = []
+    for _ in range(n):
+        p = []
+        for _ in range(d):
+            k = rng.random()
+            if k < 0.4 and inter:
+                p.append(_nudge(rng, inter[int(rng.integers(len(inter)))]) + (0.0 if rng.random() < 0.5 else float(rng.uniform(-1, 1))))
+            elif k < 0.7:
+                p.append(float(rng.uniform(-5, 5)))
+            else:
+                p.append(_hostile(rng)[0])
+        pts.append(p)
+    return pts
+
+
+def _gen_nested(rng, vector):
+    d0 = int(rng.integers(2, 4)) if vector and rng.random() < 0.8 else int(rng.integers(1, 4))
+    if vector and rng.random() < 0.6:
+        d0 = 3
+    chain = _n_chain(rng, d0, vector, int(rng.integers(2, 4)))
+    case = {"w": "nested_vector" if vector else "nested", "chain": chain, "pts": _n_points(rng, chain, int(rng.integers(6, 25)))}
+    if rng.random() < 0.25 and not (vector and d0 == 1):
+        case["sampler"] = ["points", "grid"][int(rng.integers(2))] if d0 > 1 else "points"
+    return case
+
+
+def _n_names(chain):
+    out = []
+    for L in chain["layers"]:
+        n = L["c"]
+        if isinstance(L.get("g"), dict):
+            n += "[g=%s]" % _n_names(L["g"])
+        out.append(n)
+    return "(".join(out) + ")" * (len(out) - 1)
+
+
+def _n_relation(chain):
+    """range relation of the first pair of directly nested ClampOutput layers (for the violation key)"""
+    Ls = chain["layers"]
+    for a, b in zip(Ls, Ls[1:]):
+        if a["c"].startswith("ClampOutput") and b["c"].startswith("ClampOutput"):
+            olo, ohi = _bnum(a["bounds"][0], -math.inf), _bnum(a["bounds"][1], math.inf)
+            ilo, ihi = _bnum(b["bounds"][0], -math.inf), _bnum(b["bounds"][1], math.inf)
+            if ohi < ilo or ihi < olo:
+                return ":disjoint-ranges"
+            if ohi == ilo or ihi == olo:
+                return ":touching-ranges"
+            if (olo <= ilo and ihi <= ohi) or (ilo <= olo and ohi <= ihi):
+                return ":contained-ranges"
+            return ":overlapping-ranges"
+    return ""
+
+
+def _n_build(cm, chain, vector):
+    """construct the real nested object; returns (object, leaf recorder, per-layer runtime info)"""
+    leaf = Rec(chain["f"], vector=vector)
+    obj = leaf
+    rt = [None] * len(chain["layers"])
+    for i in range(len(chain["layers"]) - 1, -1, -1):
+        L = chain["layers"][i]
+        c = L["c"]
+        cls = getattr(cm, c)
+        if c.startswith("IsoMapper"):
+            if isinstance(L["g"], dict):
+                gobj, gleaf, grt = _n_build(cm, L["g"], False)
+                rt[i] = {"gchain": L["g"], "gleaf": gleaf, "grt": grt}
+            else:
+                gobj = Rec(L["g"])
+                rt[i] = {"gleaf": gobj}
+            obj = cls(obj, gobj)
+        elif c.startswith("ClampOutput"):
+            kw = {}
+            if L["bounds"][0] is not None:
+                kw["min"] = _bnum(L["bounds"][0], -math.inf)
+            if L["bounds"][1] is not None:
+                kw["max"] = _bnum(L["bounds"][1], math.inf)
+            obj = cls(obj, **kw)
+        elif c.startswith("ClampInput"):
+            kw = {}
+            for ax, (lo, hi) in zip("xyz", L["bounds"]):
+                if lo is not None:
+                    kw[ax + "min"] = _bnum(lo, -math.inf)
+                if hi is not None:
+                    kw[ax + "max"] = _bnum(hi, math.inf)
+            obj = cls(obj, **kw)
+        elif c == "Swizzle3D":
+            obj = cls(obj, tuple(L["shape"]))
+        elif c.startswith("Slice"):
+            obj = cls(obj, L["axis"], L["value"])
+        elif "PeriodicTransform" in c:
+            obj = cls(obj, *L["periods"])
+        else:
+            obj = cls(obj)
+    return obj, leaf, rt
+
+
+def _n_clear(leaf, rt):
+    leaf.calls.clear()
+    for r in rt:
+        if r:
+            r["gleaf"].calls.clear()
+            if "grt" in r:
+                _n_clear(r["gleaf"], r["grt"])
+
+
+def _decirc(co):
+    """a coordinate defined modulo c used by a non-periodic map: plain tolerance unless it is within tolerance of the wrap"""
+    if co is None or co[2] is None:
+        return co
+    v, t, c = co
+    if min(v, c - v) <= t:
+        return None
+    return (v, t, None)
+
+
+def _n_forward(L, coords):
+    """argument map of one layer on (value, tol, modulus) coordinates; None = not judged.  Also returns the geometry
+    record (x, y exact or None) needed by the vector rotation."""
+    c = L["c"]
+    geo = None
+    if c.startswith("ClampInput"):
+        out = []
+        for co, (lo, hi) in zip(coords, L["bounds"]):
+            co = _decirc(co)
+            if co is None:
+                out.append(None)
+            else:
+                out.append((min(max(co[0], _bnum(lo, -math.inf)), _bnum(hi, math.inf)), co[1], None))
+        return out, geo
+    if c == "Swizzle2D":
+        return [coords[1], coords[0]], geo
+    if c == "Swizzle3D":
+        return [coords[i] for i in L["shape"]], geo
+    if c.startswith("Slice"):
+        ax = L["axis"]
+        a = ax if isinstance(ax, int) else {"x": 0, "y": 1, "z": 2}[ax.lower()]
+        out = list(coords)
+        out.insert(a, (float(L["value"]), 0.0, None))
+        return out, geo
+    if "PeriodicTransform" in c:
+        out = []
+        for co, p in zip(coords, L["periods"]):
+            if p == 0.0 or co is None:
+                out.append(co)
+                continue
+            co = _decirc(co) if co[2] != p else co
+            if co is None:
+                out.append(None)
+                continue
+            m = float(Fraction(co[0]) % Fraction(p))
+            out.append((m, co[1] + _tol(m), p))
+        return out, geo
+    if c in _GEOM:
+        cx, cy, cz = _decirc(coords[0]), _decirc(coords[1]), coords[2]
+        if cx is None or cy is None or cx[1] != 0.0 or cy[1] != 0.0:
+            r = phi = None
+        else:
+            x, y = cx[0], cy[0]
+            geo = (x, y)
+            mxy = max(abs(x), abs(y))
+            r = (math.hypot(x, y), _tol(math.hypot(x, y)), None) if (mxy == 0.0 or R_LO <= mxy <= R_HI) else None
+            if mxy == 0.0 or (y == 0.0 and x < 0):
+                phi = None                         # axis / branch cut: judged by the single-wrapper cases
+            else:
+                a = math.atan2(y, x)
+                phi = (a, _tol(a), None)
+        return ([r, phi, cz] if "Cylindrical" in c else [r, cz]), geo
+    return list(coords), geo                       # ClampOutput, IsoMapper: arguments pass through
+
+
+def _n_judge(ctx, label, chain, rt, leaf, coords, vector, x, rel=""):
+    """judge one evaluation of a chain whose exposed arguments are `coords`; returns ("ok", value, atol) / ("skip",) / ("bad",)"""
+    layers = chain["layers"]
+    geos = []
+    for L in layers:
+        coords, geo = _n_forward(L, coords)
+        geos.append(geo)
+    if not leaf.calls:
+        if any(co is None or co[1] != 0.0 for co in coords):
+            ctx.skip("nested: innermost function not called and its arguments are not exactly determined: not judged")
+            return ("skip",)
+        args = tuple(co[0] for co in coords)
+        leaf.calls.append((args, leaf.value(args)))
+    for args, _ in leaf.calls:
+        if len(args) != len(coords):
+            ctx.viol("nested:%s:leaf-args" % label, "wrong number of arguments reached the innermost function", x=x, got=list(args))
+            return ("bad",)
+        for ax, (a, co) in enumerate(zip(args, coords)):
+            if co is None:
+                if not math.isfinite(a):
+                    # e.g. an overflowed radius (outside its judged window) went through an inner map: nothing downstream is defined
+                    ctx.skip("nested: a non-finite value from an unjudged radius reached the innermost function: evaluation not judged")
+                    return ("skip",)
+                ctx.skip("nested: a leaf argument is not judged (branch cut / axis / radius outside its window / wrap ambiguity)")
+                continue
+            v, t, c = co
+            ctx.mon("nested_leaf_args")
+            if c is not None:
+                ok = 0.0 <= a < c
+                d = abs(a - v)
+                d = min(d, abs(c - d))
+                ok = ok and d <= t
+            elif t == 0.0:
+                ok, d = (a == v), 0.0
+            else:
+                d = abs(a - v)
+                ok = d <= t
+            if t > 0:
+                ctx.margin("nested_leaf_args", d / t)
+            if not ok:
+                ctx.viol("nested:%s:leaf-args:%s" % (label, "xyz"[ax]),
+                         "argument reaching the innermost function differs from the mathematical composition of the argument maps",
+                         x=x, got=list(args), want=[None if q is None else q[0] for q in coords], tol=t, modulus=c, chain=_n_describe(chain))
+                return ("bad",)
+    val = leaf.calls[-1][1]
+    atol = 0.0
+    for i in range(len(layers) - 1, -1, -1):
+        L = layers[i]
+        c = L["c"]
+        if c.startswith("ClampOutput"):
+            val = min(max(val, _bnum(L["bounds"][0], -math.inf)), _bnum(L["bounds"][1], math.inf))
+        elif c.startswith("IsoMapper"):
+            r = rt[i]
+            if "gchain" in r:
+                res = _n_judge(ctx, label + ":g", r["gchain"], r["grt"], r["gleaf"], [(val, 0.0, None)], False, x)
+                if res[0] != "ok":
+                    return res
+                val = res[1]
+            else:
+                g = r["gleaf"]
+                if not g.calls:
+                    g.calls.append(((val,), g.value((val,))))
+                ctx.mon("nested_leaf_args")
+                if not (g.calls[-1][0] == (val,)):
+                    ctx.viol("nested:%s:function1d-arg" % label, "function1d of the iso-mapper did not receive the inner value",
+                             x=x, got=list(g.calls[-1][0]), want=val)
+                    return ("bad",)
+                val = g.calls[-1][1]
+        elif c in ("VectorCylindricalTransform", "VectorAxisymmetricMapper"):
+            geo = geos[i]
+            if geo is None or (geo[0] == 0.0 and geo[1] == 0.0):
+                ctx.skip("nested: rotation angle not exactly determined (approximate or axis coordinates): value not judged")
+                return ("skip",)
+            xx, yy = geo[0], (0.0 if geo[1] == 0.0 else geo[1])
+            e = math.frexp(max(abs(xx), abs(yy)))[1]
+            xs, ys = math.ldexp(xx, -e), math.ldexp(yy, -e)
+            rs = math.hypot(xs, ys)
+            cs, sn = xs / rs, ys / rs
+            vn = math.sqrt(val[0] ** 2 + val[1] ** 2 + val[2] ** 2)
+            val = (val[0] * cs - val[1] * sn, val[0] * sn + val[1] * cs, val[2])
+            atol += 3e-14 * vn + TINY
+    return ("ok", val, atol)
+
+
+def _n_describe(chain):
+    return [{k: v for k, v in L.items() if k != "g"} for L in chain["layers"]]
+
+
+def _run_nested(case, ctx):
+    cm = _mod(ctx)
+    vector = case["w"] == "nested_vector"
+    chain = case["chain"]
+    label = _n_names(chain)
+    rel = _n_relation(chain)
+    obj, leaf, rt = _n_build(cm, chain, vector)
+    ctx.cls("nested:depth%d" % len(chain["layers"]))
+    names = [L["c"] for L in chain["layers"]]
+    for a, b in zip(names, names[1:]):
+        ctx.cls("nested:%s-of-%s" % (a[:-2] if a[-1] == "D" else a, b[:-2] if b[-1] == "D" else b))
+    direct = []
+    for x in case["pts"]:
+        x = [float(t) for t in x]
+        _n_clear(leaf, rt)
+        res = obj(*x)
+        if vector:
+            res = _vec(res)
+        direct.append(res)
+        ctx.nontrivial()
+        out = _n_judge(ctx, label, chain, rt, leaf, [(t, 0.0, None) for t in x], vector, x, rel)
+        if out[0] != "ok":
+            continue
+        _, val, atol = out
+        if vector:
+            ctx.mon("nested_value", 3)
+            d = max(abs(a - b) for a, b in zip(res, val))
+            if atol > 0:
+                ctx.margin("nested_value", d / atol)
+            ok = d <= atol
+        else:
+            ctx.mon("nested_value")
+            ok = (res == val)
+        if not ok:
+            ctx.viol("nested:%s:value%s" % (label, rel),
+                     "value returned by the nested wrappers is not the mathematical composition applied to the innermost function's value",
+                     x=x, got=list(res) if vector else res, want=list(val) if vector else val, chain=_n_describe(chain))
+    # samplers of wrapped functions: every entry must equal the directly evaluated nested wrapper at that point
+    smp = case.get("sampler")
+    if smp:
+        d = chain["dim"]
+        pre = "samplevector" if vector else "sample"
+        if smp == "points":
+            fn = getattr(cm, "%s%dd_points" % (pre, d))
+            arr = np.array(case["pts"], dtype=float)
+            v = np.asarray(fn(obj, arr[:, 0] if d == 1 else arr))
+            want = np.array(direct, dtype=float)
+        else:
+            fn = getattr(cm, "%s%dd_grid" % (pre, d))
+            axes = [sorted(set(float(p[a]) for p in case["pts"][:5])) for a in range(d)]
+            v = np.asarray(fn(obj, *axes))
+            want = np.empty(v.shape)
+            for idx in np.ndindex(*[len(a) for a in axes]):
+                r = obj(*[axes[a][i] for a, i in enumerate(idx)])
+                want[idx] = _vec(r) if vector else r
+        ctx.mon("nested_value", int(want.size))
+        if v.shape != want.shape or not np.array_equal(v, want, equal_nan=True):
+            ctx.viol("nested:sampler-of-wrapper:%s:entry" % fn.__name__, "sampler entry differs from the directly evaluated nested wrapper",
+                     chain=_n_describe(chain), shape=list(v.shape))
+
+
+def _nested_fixed():
+    """deterministic nested cases: every wrapper class wrapping an instance of its own class and of every other compatible
+    class (depth 2), clamp-of-clamp in all range relations and both orders, all 27x27 swizzle-of-swizzle shapes,
+    periodic-of-periodic with different periods, and a few depth-3 chains"""
+    out = []
+    fl = {1: [0.3, 1.7, -0.9], 2: [0.3, 1.7, -0.9, 0.4], 3: [0.3, 1.7, -0.9, 2.1, 0.4]}
+    vl = {d: [fl[d], [1.0, -2.0, 0.5, 0.3, -0.6][:d + 2], [-0.7, 0.2, 0.1, 0.9, 1.1][:d + 2]] for d in (1, 2, 3)}
+    vals = [-4.0, -1.0, -0.3, -0.0, 0.2, 0.5, 1.0, 2.75, 7.0, -1e-20, 361.0]
+
+    def pts(d):
+        base = [[v] * d for v in vals]
+        return base + [[vals[(i + 3 * a) % len(vals)] for a in range(d)] for i in range(len(vals))]
+
+    def layer(c, variant=0):
+        if c.startswith("ClampOutput"):
+            return {"c": c, "bounds": [[0.0, 1.0], [-0.5, 0.4]][variant]}
+        if c.startswith("ClampInput"):
+            return {"c": c, "bounds": [[[0.0, 1.0], [-1.0, None], [None, 0.25]], [[0.5, 2.0], [None, 0.0], [-1.0, 3.0]]][variant][:int(c[-2])]}
+        if c == "Swizzle3D":
+            return {"c": c, "shape": [[1, 0, 1], [2, 0, 1]][variant]}
+        if c.startswith("Slice"):
+            return {"c": c, "axis": [1, "x"][variant], "value": [1.25, -0.75][variant]}
+        if "PeriodicTransform" in c:
+            return {"c": c, "periods": [[1.0, 0.0, 360.0], [0.3, 2.0, 0.0]][variant][:int(c[-2])]}
+        if c.startswith("IsoMapper"):
+            return {"c": c, "g": [fl[1], {"layers": [{"c": "ClampOutput1D", "bounds": [0.1, 0.8]}], "f": fl[1], "leaf_dim": 1, "dim": 1}][variant]}
+        return {"c": c}
+
+    for vector, table, leafs, tag in ((False, N_EXPOSE, fl, "nested"), (True, N_EXPOSE_VEC, vl, "nested_vector")):
+        for d0 in (1, 2, 3):
+            for c1, w1 in table[d0]:
+                for c2, w2 in table[w1]:
+                    if c1 in _GEOM and c2 in _GEOM:
+                        continue
+                    ch = {"layers": [layer(c1, 0), layer(c2, 1)], "f": leafs[w2], "leaf_dim": w2, "dim": d0}
+                    case = {"w": tag, "chain": ch, "pts": pts(d0)}
+                    if not (vector and d0 == 1):
+                        case["sampler"] = "points"
+                    out.append(case)
+    # clamp of clamp: overlapping / touching / contained (both ways) / disjoint (both orders), incl. default and explicit inf
+    rel = [([0.0, 1.0], [0.5, 2.0]), ([0.5, 2.0], [0.0, 1.0]), ([0.0, 1.0], [1.0, 2.0]), ([1.0, 2.0], [0.0, 1.0]),
+           ([0.0, 3.0], [1.0, 2.0]), ([1.0, 2.0], [0.0, 3.0]), ([0.0, 1.0], [2.0, 3.0]), ([2.0, 3.0], [0.0, 1.0]),
+           ([None, 1.0], [2.0, None]), ([2.0, "inf"], ["-inf", 1.0]), ([None, None], [0.0, 1.0]), ([0.0, 1.0], [None, None])]
+    wide = {1: [1.0, 6.0, 0.0], 2: [1.0, 6.0, 0.0, 0.0], 3: [1.0, 6.0, 0.0, 0.0, 0.0]}      # leaf values spread over about [-5, 7]
+    for d in (1, 2, 3):
+        for o, i in rel:
+            out.append({"w": "nested", "chain": {"layers": [{"c": "ClampOutput%dD" % d, "bounds": o}, {"c": "ClampOutput%dD" % d, "bounds": i}],
+                                                 "f": wide[d], "leaf_dim": d, "dim": d}, "pts": pts(d)})
+            bo = [o] + [[None, None]] * (d - 1)
+            bi = [i] + [[None, None]] * (d - 1)
+            out.append({"w": "nested", "chain": {"layers": [{"c": "ClampInput%dD" % d, "bounds": bo}, {"c": "ClampInput%dD" % d, "bounds": bi}],
+                                                 "f": fl[d], "leaf_dim": d, "dim": d}, "pts": pts(d)})
+        out.append({"w": "nested", "chain": {"layers": [{"c": "ClampOutput%dD" % d, "bounds": [0.0, 1.0]}, {"c": "ClampOutput%dD" % d, "bounds": [2.0, 3.0]},
+                                                        {"c": "ClampOutput%dD" % d, "bounds": [-1.0, 0.5]}], "f": wide[d], "leaf_dim": d, "dim": d}, "pts": pts(d)})
+    # swizzle of swizzle: all 27 x 27 shapes
+    sp = [[1.5, -2.5, 3.5], [0.0, -0.0, 1e-150]]
+    for a in range(27):
+        for b in range(27):
+            out.append({"w": "nested", "chain": {"layers": [{"c": "Swizzle3D", "shape": [a // 9, a // 3 % 3, a % 3]},
+                                                            {"c": "Swizzle3D", "shape": [b // 9, b // 3 % 3, b % 3]}],
+                                                 "f": fl[3], "leaf_dim": 3, "dim": 3}, "pts": sp})
+    # periodic of periodic with different periods (commensurate and not), scalar and vector
+    for po, pi_ in ((1.0, 0.3), (0.3, 1.0), (360.0, 2 * math.pi), (2.0, 0.5), (0.5, 2.0), (1.0, 1.0)):
+        for d in (1, 2, 3):
+            for vector in (False, True):
+                out.append({"w": "nested_vector" if vector else "nested",
+                            "chain": {"layers": [{"c": ("Vector" if vector else "") + "PeriodicTransform%dD" % d, "periods": [po] * d},
+                                                 {"c": ("Vector" if vector else "") + "PeriodicTransform%dD" % d, "periods": ([pi_, 0.0, pi_])[:d]}],
+                                      "f": (vl if vector else fl)[d], "leaf_dim": d, "dim": d}, "pts": pts(d)})
+    # depth 3
+    out.append({"w": "nested", "chain": {"layers": [{"c": "IsoMapper3D", "g": fl[1]}, {"c": "AxisymmetricMapper"}, {"c": "ClampInput2D", "bounds": [[0.5, 2.0], [None, 1.0]]}],
+                                         "f": fl[2], "leaf_dim": 2, "dim": 3}, "pts": pts(3)})
+    out.append({"w": "nested", "chain": {"layers": [{"c": "Slice2D", "axis": "y", "value": 0.5}, {"c": "Slice3D", "axis": 0, "value": -1.5}, {"c": "CylindricalTransform"}],
+                                         "f": fl[3], "leaf_dim": 3, "dim": 1}, "pts": pts(1)})
+    out.append({"w": "nested_vector", "chain": {"layers": [{"c": "VectorPeriodicTransform3D", "periods": [0.0, 0.0, 2.0]}, {"c": "VectorCylindricalTransform"},
+                                                           {"c": "VectorPeriodicTransform3D", "periods": [0.0, 2 * math.pi, 0.0]}],
+                                                "f": vl[3], "leaf_dim": 3, "dim": 3}, "pts": pts(3)})
+    return out
